@@ -118,6 +118,7 @@ def run(ctx):
     check_use_site(ctx)
     check_cross_kind(ctx)
     check_ordered_equality(ctx, fns)
+    check_async_first(ctx)
     import c10, engine
     c10.run(engine.AliasCtx(ctx, {"R10.2": "R07.8", "R10.3": "R07.8"}))
     # "use at argument time": set_instantiation_argument's verdicts inside the already-passed scan (C06 R06.8)
@@ -394,6 +395,35 @@ def contains_unordered(db, ty, depth=4, seen=None):
                     if r:
                         return "%s.%s: %s" % (path.split("::")[-1], fl["name"], r)
     return None
+
+
+def check_async_first(ctx):
+    """R07.1 `async-before-success`: in the function rule the `is_async` flags are compared on every path that can end in
+    `Ok(())` — the comparison dominates every success exit (moved behind an early success it only runs for pairs that are
+    rejected anyway)."""
+    from cfg import ok_blocks
+    db, prov = ctx.db, ctx.prov
+    f = db.fn(CK + "func")
+    ctx.touch(f)
+    cfg = CFG(f)
+    reads = set()
+    for st in f.stmts():
+        for pl in [st.rv.place] + [o.place for o in st.rv.ops]:
+            if pl is not None and any(nm == "is_async" and o.endswith("component::FuncType") for nm, o, v in pl.fields()):
+                reads.add(st.bb)
+    for t in f.calls():
+        for a in t.args:
+            if a.place is not None and any(nm == "is_async" and o.endswith("component::FuncType") for nm, o, v in a.place.fields()):
+                reads.add(t.bb)
+    # (the `a == b` identity shortcut returns before the two function types are even looked up: only verdicts taken after the
+    # types were loaded count)
+    loads = [t.bb for t in f.calls() if (t.path or "").startswith("wac_types::<component::Types as core::ops::index::Index<component::FuncTypeId")]
+    oks = {o for o in ok_blocks(f) if any(cfg.dominates(l, o) for l in loads)}
+    good = bool(reads) and bool(oks) and all(cfg.must_pass(sorted(reads), src=0, dsts={o}) for o in oks)
+    ctx.ob("R07.1", "async-before-success", good,
+           "the async flags are compared on every path to a successful verdict" if good else
+           "a successful verdict of the function rule can be reached without comparing `is_async` (the comparison sits behind an early `Ok`): an async function is accepted for a sync import",
+           site=f.span)
 
 
 def check_ordered_equality(ctx, fns):
